@@ -1,5 +1,8 @@
 import YProofs.Lemmas.SchedFresh
 /-! Sweep-level Hoare triples for the DMRG / TDVP schedules (C09 `dmrg_reads_fresh`, C10 `tdvp_reads_fresh`). -/
+set_option linter.unusedSimpArgs false
+set_option linter.unusedVariables false
+
 namespace YModel.Sched
 
 theorem absSite_bounds (N : Nat) (to : Dir) (m : Nat) : m - 1 ≤ absSite N to m ∧ absSite N to m ≤ m := by
@@ -748,5 +751,22 @@ theorem canonize_ok (N : Nat) (pre : Bool) : Tr N pre (J N) (canonizeFirst N) (J
       exact ⟨ok, by rw [hF', hF], hp'⟩
   exact Tr.cons first (Tr.loopDown (N := N) (pre := pre) (fun _ => J N) (fun n => [.orth n .first, .abs .first]) N
     (fun i _ => step i))
+
+/-- the whole event trace of `_dmrg_`: canonisation (if `psi.is_canonical(to='first')` is false), `setup_`, the initial
+`measure`, then for every sweep its method's sweep and the `measure` that produces the reported energy -/
+def dmrgRun (N : Nat) (canon : Bool) (methods : List Method) : List Ev :=
+  (if canon then [] else canonizeFirst N) ++ dmrgTrace N methods
+
+theorem dmrgRun_ok (N : Nat) (hN : 1 ≤ N) (pre canon : Bool) (methods : List Method) :
+    Tr N pre (J N) (dmrgRun N canon methods) (B N pre) := by
+  unfold dmrgRun
+  cases canon with
+  | true => exact (dmrgTrace_ok N pre hN methods).weaken (fun st h => J_S h) (fun st h => h)
+  | false =>
+    exact Tr.append (canonize_ok N pre) ((dmrgTrace_ok N pre hN methods).weaken (fun st h => J_S h) (fun st h => h))
+
+theorem fresh_of_FreshK {N : Nat} {st : St} {k : Key} (h : FreshK N st.ver st.F k) : st.fresh N k = true := by
+  unfold FreshK at h
+  simp [St.fresh, h]
 
 end YModel.Sched
